@@ -666,6 +666,17 @@ pub fn check_history(hist: &Hist, rep: &mut Report) {
     }
     let resident_ids: HashSet<u64> = store.values().cloned().collect();
 
+    // ---------------------------------------------------------------- C09: insert_if_present never creates an entry
+    for o in ops.iter().filter(|o| o.op == OP_IF_PRESENT && !o.err) {
+        rep.count("ho_c09_if_present_checked");
+        if o.ok && !o.update_path {
+            rep.violate("C09", "if-present/true-without-replacing", format!("{}: returned true although no resident value was replaced inside the call", o.short()), json!({"history": d, "timeline_of_key": key_timeline(hist, o.key, o.ret + 2)}));
+        }
+        if !o.ok && (resident_ids.contains(&o.id) || cb_of.contains_key(&o.id)) {
+            rep.violate("C09", "if-present/false-but-value-entered", format!("{}: returned false, yet its value is resident or reached a callback", o.short()), json!({"history": d, "timeline_of_key": key_timeline(hist, o.key, u64::MAX)}));
+        }
+    }
+
     // ---------------------------------------------------------------- C08: conservation
     for o in ops.iter() {
         if !matches!(o.op, OP_INSERT | OP_IF_PRESENT) {
@@ -987,7 +998,7 @@ pub fn gen_history(prop: &str, rng: &mut Rng, hno: u64) -> HCfg {
         ttl_share: if mode == "barrier" { 0 } else { 3 },
         cost_max,
         start_ns: 1_700_000_000_000_000_000 + hno * 137_000_000,
-        vld_mode: if prop == "C08" && rng.chance(1, 3) { rng.range(1, 4) as u8 } else { 0 },
+        vld_mode: if (prop == "C08" || prop == "C09") && rng.chance(1, 3) { rng.range(1, 4) as u8 } else { 0 },
         seed: rng.next() >> 16,
     }
 }
